@@ -194,7 +194,12 @@ func runQuotaGuard(c *core.Ctx) {
 	}
 	okCls := false
 	for _, d := range mapDeletesOn(cls, ".subs") {
-		if an.PathOf(d.Call.Args[1]) == cm+".SubscriptionID" {
+		kp := an.PathOf(d.Call.Args[1])
+		if cm != "" && kp == cm+".SubscriptionID" {
+			okCls = true
+		}
+		// handled in the dispatching method's own CLOSE clause
+		if cm == "" && strings.HasSuffix(kp, ".SubscriptionID") && assertedType(cls, d.Block(), strings.TrimSuffix(kp, ".SubscriptionID")) == "ClientCloseMsg" {
 			okCls = true
 		}
 	}
